@@ -254,8 +254,7 @@ class Verifier(QuantMixin, LoopMixin, ExprMixin, CallMixin, StmtMixin, BuiltinsM
             self.use_class(L)
             self.use_class(T)
             if hint:
-                sq = smt.simp(z3.Select(self.strip_fresh(self.st.seq) if self.is_old(v) else self.st.seq, Val.r(v)))
-                self.seq_elem_type[sq.get_id()] = inner
+                self.seq_elem_type[self.get_seq(v).get_id()] = inner
                 self.container_elem_type[smt.simp(v).get_id()] = inner
             cid = smt.cls_of(Val.r(v))
             return z3.And(Val.is_ref(v), Val.r(v) >= 0, z3.Or(cid == L.cid, cid == T.cid))
@@ -469,7 +468,10 @@ class Verifier(QuantMixin, LoopMixin, ExprMixin, CallMixin, StmtMixin, BuiltinsM
         """same elements (by identity) in the same order"""
         a = self.to_seq_val(self.ev(e.args[0], fr))
         b = self.to_seq_val(self.ev(e.args[1], fr))
-        return self.to_val_bool(self.get_seq(a) == self.get_seq(b))
+        sa, sb = self.get_seq(a), self.get_seq(b)
+        if not sa.eq(sb):
+            self.link_seqs(sa, sb)          # same index domain: facts about one are instantiated for the other
+        return self.to_val_bool(sa == sb)
 
     def ex_Assert(self, s, fr):
         ct = getattr(self, 'current_contract', None)
@@ -628,7 +630,9 @@ class Verifier(QuantMixin, LoopMixin, ExprMixin, CallMixin, StmtMixin, BuiltinsM
         if k != 'str':
             self.raise_new('TypeError', smt.mk_str('the JSON object must be str, bytes or bytearray'),
                            origin='json.loads of a non-string')
-        which = self.choose([z3.BoolVal(True)] * 3)
+        is_json = z3.Function('uf_is_json_text', Val, z3.BoolSort())(text)
+        huge = z3.Function('uf_has_huge_int_literal', Val, z3.BoolSort())(text)
+        which = self.choose([z3.And(is_json, z3.Not(huge)), z3.Not(is_json), z3.And(is_json, huge)])
         if which == 1:
             self.raise_new('JSONDecodeError', smt.mk_str('invalid json'), origin='json.loads')
         if which == 2:
@@ -940,6 +944,14 @@ class Verifier(QuantMixin, LoopMixin, ExprMixin, CallMixin, StmtMixin, BuiltinsM
         if ct.returns_iff is not None:
             cond = self.clause_holds(ct.returns_iff, env)
         guards = [cond if cond is not None else z3.BoolVal(True)]
+        cur = getattr(self, 'current_contract', None)
+        if cur is not None and fi.qualname in cur.extra.get('assume_no_raise', {}):
+            # an ASSUMED lemma of the enclosing function's contract (listed in its trusted base): on this call
+            # the callee's raising outcomes cannot occur
+            raises = []
+            if cond is not None:
+                self.assume_checked(cond)
+            guards = [z3.BoolVal(True)]
         for rc in raises:
             g = z3.Not(cond) if cond is not None else z3.BoolVal(True)
             short = rc.split(':')[-1].split('.')[-1]
@@ -972,13 +984,20 @@ class Verifier(QuantMixin, LoopMixin, ExprMixin, CallMixin, StmtMixin, BuiltinsM
             res = self.alloc_havoc(K)
         else:
             res = self.fresh('res')
-            self.bound_ref(res)
-            self._add_axiom(res != smt.ABSENT)
             if ct.result_type:
+                # a typed result is an object produced by the callee: never one of the caller's own allocations
+                self.mark_external(res)
                 self.assume_type(res, ct.result_type)
+            else:
+                self.bound_ref(res)
+                self._add_axiom(res != smt.ABSENT)
         env2 = dict(env)
         env2['result'] = res
+        cur = getattr(self, 'current_contract', None)
+        only = (cur.extra.get('callee_ensures_only', {}) if cur is not None else {}).get(ct.target)
         for cl in ct.ensures:
+            if only is not None and cl.name not in only:
+                continue          # assuming fewer facts about a callee is always sound (and cheaper)
             self.assume_checked(self.clause_holds(cl, env2))
         return res
 
@@ -1041,9 +1060,12 @@ class Verifier(QuantMixin, LoopMixin, ExprMixin, CallMixin, StmtMixin, BuiltinsM
             for a in path[:-1]:
                 v = self.get_attr(v, a)
             nv = self.fresh(f'hv_{path[-1]}')
-            self.bound_ref(nv)
-            self._add_axiom(nv != smt.ABSENT)
+            self.mark_external(nv)               # whatever the callee stored is not one of OUR allocations
             self.set_attr_raw(v, path[-1], nv)
+            oc = self.class_of(v)
+            ft = self.field_type(oc, path[-1]) if oc is not None else None
+            if ft is not None:
+                self.apply_field_type(nv, ft)    # class invariant of the owner (field typing)
             return
         for a in path:
             v = self.get_attr(v, a)
@@ -1126,11 +1148,40 @@ class Verifier(QuantMixin, LoopMixin, ExprMixin, CallMixin, StmtMixin, BuiltinsM
         self.bounded.add(smt.simp(v).get_id())
         return v
 
+    def verify_one_path(self, fi: FuncInfo, ct: Contract, decisions: List[int]):
+        """explore exactly ONE path (the one selected by the decision prefix, extended greedily) and return
+        (FuncResult for that path, alternatives discovered).  Paths are independent under the re-execution model,
+        so a scheduler can run them on different cores."""
+        t0 = time.time()
+        res = FuncResult(qualname=fi.qualname, contract=f'{ct.module}:{ct.name}', sha1=fi.sha1())
+        self.current_func = fi.qualname
+        self.current_contract = ct
+        self.fast_feasibility = bool(ct.extra.get('fast_feasibility', False))
+        self.use_summaries = bool(ct.extra.get('spec_summaries', False))
+        self.obligations = []
+        self.pending = []
+        self.stats = dict(paths=1, branches=0, feas_checks=0, solver_s=0.0, obligations=0)
+        self.no_contract_for = {fi.qualname}
+        self.loop_contracts = {(fi.qualname, n): lc for n, lc in ct.invariants.items()}
+        self.reset_path(list(decisions))
+        self.path_tag = '.'.join(str(d) for d in decisions)
+        rec = self.run_path(fi, ct, res)
+        res.paths.append(rec)
+        if rec.outcome == 'unsupported':
+            res.unsupported.append(rec.detail)
+        res.obligations = list(self.obligations)
+        res.stats = dict(self.stats)
+        res.wall_s = time.time() - t0
+        if rec.outcome.startswith(('return', 'raise')):
+            res.covers[rec.outcome] = 1
+        return res, [list(p) for p in self.pending]
+
     def verify_function(self, fi: FuncInfo, ct: Contract, max_paths: int = MAX_PATHS) -> FuncResult:
         t0 = time.time()
         res = FuncResult(qualname=fi.qualname, contract=f'{ct.module}:{ct.name}', sha1=fi.sha1())
         self.current_func = fi.qualname
         self.current_contract = ct
+        self.path_tag = ''
         self.fast_feasibility = bool(ct.extra.get('fast_feasibility', False))
         self.use_summaries = bool(ct.extra.get('spec_summaries', False))
         self.obligations = []
